@@ -398,7 +398,64 @@ pub fn random_run<W: Write>(tr: &mut Trace<W>, cfg: Cfg, prof: &Profile, seed: u
     }
     let mut next_id: u32 = 0;
     let mut ever_parent: std::collections::BTreeMap<String, std::collections::BTreeSet<String>> = Default::default();
-    for _ in 0..prof.steps {
+    // some runs of the event profiles: a long quiet stretch early on, so that clients that (re)connect or are
+    // authorized later hold update ticks of a different magnitude (>= 128: two-byte varint) than the others
+    let long_at = if prof.events && rng.chance(1, 5) { Some(3 + rng.below(6)) } else { None };
+    for step_no in 0..prof.steps {
+        if long_at == Some(step_no) {
+            if sim.op_enabled("Spawn", &json!({"e": ents[0]})) {
+                tr.step(&mut sim, "Spawn", json!({"e": ents[0], "comps": ["A"], "repl": true}));
+            }
+            tr.step(&mut sim, "SrvFrame", json!({"tick": true, "dt": 0}));
+            for _ in 0..130 {
+                tr.step(&mut sim, "SrvFrame", json!({"tick": true, "dt": 0}));
+            }
+            // the last client joins (again) now: its update tick is far ahead of the others'
+            let late = clients.last().unwrap().clone();
+            if prof.sess {
+                let ci = sim.ci(&late);
+                if sim.clients[ci].entity.is_some() {
+                    tr.step(&mut sim, "Disconnect", json!({"c": late}));
+                }
+                tr.step(&mut sim, "CliFrame", json!({"c": late, "dt": 0}));
+                tr.step(&mut sim, "SrvFrame", json!({"tick": false, "dt": 0}));
+                tr.step(&mut sim, "Connect", json!({"c": late}));
+            }
+            tr.step(&mut sim, "SrvFrame", json!({"tick": true, "dt": 0}));
+            next_id += 1;
+            tr.step(&mut sim, "EmitS", json!({"t": "SOrd", "id": next_id, "mode": "all", "to": "none", "e": "none"}));
+            next_id += 1;
+            tr.step(&mut sim, "EmitS", json!({"t": "SMap", "id": next_id, "mode": "all", "to": "none", "e": ents[0]}));
+            tr.step(&mut sim, "SrvFrame", json!({"tick": true, "dt": 0}));
+        }
+        if prof.sess && !prof.events && rng.chance(1, 25) {
+            // a client leaves while a mutate message is buffered for an update message it never gets
+            let c = rng.pick(&clients).clone();
+            let e = rng.pick(&ents).clone();
+            let ci = sim.ci(&c);
+            if sim.clients[ci].entity.is_some() && sim.project_server()["running"] == json!(true) {
+                if sim.op_enabled("Spawn", &json!({"e": e})) {
+                    tr.step(&mut sim, "Spawn", json!({"e": e, "comps": ["A"], "repl": true}));
+                }
+                if sim.op_enabled("Mutate", &json!({"e": e, "k": "A"})) {
+                    tr.sync(&mut sim);
+                    let k2 = if sim.op_enabled("Insert", &json!({"e": e, "k": "B"})) { "Insert" } else { "Remove" };
+                    tr.step(&mut sim, k2, json!({"e": e, "k": "B"}));
+                    tr.step(&mut sim, "SrvFrame", json!({"tick": true, "dt": 0}));
+                    tr.step(&mut sim, "Mutate", json!({"e": e, "k": "A"}));
+                    tr.step(&mut sim, "SrvFrame", json!({"tick": true, "dt": 0}));
+                    while sim.channel_len(&c, "s2c", CH_MUT) > 0 {
+                        tr.step(&mut sim, "DeliverMut", json!({"c": c, "pos": 0}));
+                    }
+                    tr.step(&mut sim, "CliFrame", json!({"c": c, "dt": 0}));
+                    tr.step(&mut sim, "Disconnect", json!({"c": c}));
+                    tr.step(&mut sim, "CliFrame", json!({"c": c, "dt": 0}));
+                    tr.step(&mut sim, "SrvFrame", json!({"tick": rng.chance(1, 2), "dt": 0}));
+                    tr.step(&mut sim, "Connect", json!({"c": c}));
+                    continue;
+                }
+            }
+        }
         if prof.events && rng.chance(1, 3) {
             // event traffic
             let c = rng.pick(&clients).clone();
